@@ -14,4 +14,27 @@ def inRule : Call → Option Rule
 
 def rulesOf (cs : List Call) : List Rule := cs.filterMap inRule
 
+
+/-! ### external directives (read without the clasp extension: compiled into the program)
+  An external directive on an atom that some rule of the step defines has no effect.  For the others the LAST directive on
+  the atom counts: value `true` (1) is a fact, `free` (0) a choice, `false`/`release` nothing. -/
+def headsOf (cs : List Call) : List Nat := (rulesOf cs).flatMap (·.head)
+
+def extOf : Call → Option (Nat × Nat)
+  | .external a v => some (a, v)
+  | _ => none
+def extCalls (cs : List Call) : List (Nat × Nat) := cs.filterMap extOf
+
+/-- value of the last external directive on `a` (0 if there is none) -/
+def lastExt (es : List (Nat × Nat)) (a : Nat) : Nat := ((es.reverse.find? (fun p => p.1 == a)).map (·.2)).getD 0
+
+def extRules (cs : List Call) : List Rule :=
+  let eff := ((extCalls cs).map (·.1)).filter (fun a => !(headsOf cs).contains a)
+  let facts := eff.filter (fun a => lastExt (extCalls cs) a == 1)
+  let free := eff.filter (fun a => lastExt (extCalls cs) a == 0)
+  facts.map (fun a => ⟨false, [a], .normal []⟩) ++ (if free.isEmpty then [] else [⟨true, free, .normal []⟩])
+
+/-- the program a step denotes when externals are compiled away -/
+def progOf (cs : List Call) : List Rule := rulesOf cs ++ extRules cs
+
 end PotasscoVerif.C02
